@@ -19,7 +19,7 @@ cat "$REPO_DIR/go.sum" > "$S/go.sum" 2>/dev/null
 bin/mkoverlay -repo "$REPO_DIR" -rt "$VERIF_DIR/rt" -out "$S" > "$S/mkoverlay.log" 2>&1 || { cat "$S/mkoverlay.log" >&2; echo "HARNESS-ERROR: instrumenter failed (the tree does not build?)" >&2; exit 2; }
 go build -modfile="$S/go.mod" -overlay "$S/overlay.json" -o "$S/panmc" ./cmd/panmc > "$S/build.log" 2>&1 || { cat "$S/build.log" >&2; echo "HARNESS-ERROR: overlay build failed" >&2; exit 2; }
 (cd "$REPO_DIR" && go build -o "$S/pangaea" . ) > "$S/build2.log" 2>&1 || { cat "$S/build2.log" >&2; echo "HARNESS-ERROR: CLI build failed" >&2; exit 2; }
-export PANMC_CLI="$S/pangaea" PANMC_SCRATCH="$S" PANMC_VERIF="$VERIF_DIR" PANMC_OVERLAY="$S/overlay.json" PANMC_REPO="$REPO_DIR"
+export PANMC_CLI="$S/pangaea" PANMC_SCRATCH="$S" PANMC_VERIF="${PANMC_VERIF_OUT:-$VERIF_DIR}" PANMC_OVERLAY="$S/overlay.json" PANMC_REPO="$REPO_DIR"
 if [ "$MODE" = "--replay" ]; then
   "$S/panmc" replay "${2:?replay file}"
   exit $?
